@@ -382,9 +382,13 @@ class BaseGeo(BaseTransform):
         for k, v in kwargs.items():
             if k.startswith("style"):
                 style_kwargs[k] = v
-            else:
+            elif k != "parent":
                 setattr(obj_copy, k, v)
         if style_kwargs:
             style_kwargs = self._process_style_kwargs(**style_kwargs)
             obj_copy.style.update(style_kwargs)
+        # the parent is assigned last: when one of the other inputs is rejected, the
+        # unfinished copy must not stay behind as a child of the given collection
+        if "parent" in kwargs:
+            obj_copy.parent = kwargs["parent"]
         return obj_copy
